@@ -148,15 +148,30 @@ Qed.
 
 (* ---- the cycle search on a node table --------------------------------------------- *)
 
+Lemma is_before_asym p q : is_before p q = true -> is_before q p = false.
+Proof.
+  destruct p as [a b], q as [c d]. unfold is_before. cbn [fst snd].
+  destruct (N.ltb_spec a c), (N.ltb_spec c a), (N.ltb_spec b d), (N.ltb_spec d b); try lia; congruence.
+Qed.
+
+Lemma is_before_ntrans y s n : is_before y s = false -> is_before n s = true -> is_before y n = false.
+Proof.
+  destruct y as [a b], s as [c d], n as [e f]. unfold is_before. cbn [fst snd].
+  destruct (N.ltb_spec a c), (N.ltb_spec c a), (N.ltb_spec b d), (N.ltb_spec e c), (N.ltb_spec c e),
+    (N.ltb_spec f d), (N.ltb_spec a e), (N.ltb_spec e a), (N.ltb_spec b f); try lia; congruence.
+Qed.
+
 Lemma detect_needs_spec m ord :
   Permutation ord (keys m) ->
-  detect_post (succ_of m) (keys m) (detect_needs m ord).
+  detect_post (succ_of m) (before_of m) (keys m) (detect_needs m ord).
 Proof.
   intros P. unfold detect_needs, needs_fuel.
   replace (length m) with (length (keys m)) by (unfold keys; apply map_length).
   apply detect_spec.
   - exact String.eqb_spec.
   - apply succ_of_closed.
+  - intros a b. apply is_before_asym.
+  - intros y s n. apply is_before_ntrans.
   - intros v. split; intros H.
     + eapply Permutation_in; [exact P|exact H].
     + eapply Permutation_in; [apply Permutation_sym; exact P|exact H].
@@ -232,14 +247,15 @@ Qed.
 
 Theorem cycle_sound m ord ds p c :
   Permutation ord (keys m) -> workflow_post m ord = Done ds -> In (DCycle p c) ds ->
-  real_cycle m c /\ p = pos_of m (hd EmptyString c) /\ ds = [DCycle p c].
+  real_cycle m c /\ p = pos_of m (hd EmptyString c) /\ ds = [DCycle p c] /\
+  forall y, In y c -> is_before (pos_of m y) p = false.
 Proof.
   intros P H Hin. unfold workflow_post in H.
   destruct (flat_map (missing_of m) (entries m ord)) as [|d l] eqn:E.
   - pose proof (detect_needs_spec m ord P) as Hd.
     destruct (detect_needs m ord) as [| |[[s c']|]]; inversion H; subst; cbn in Hd.
-    + destruct Hin as [Hin|[]]. inversion Hin; subst. destruct Hd as [Hc Hs].
-      split; [now apply is_cycle_real|]. split; [|reflexivity].
+    + destruct Hin as [Hin|[]]. inversion Hin; subst. destruct Hd as [Hc [Hs Hmin]].
+      split; [now apply is_cycle_real|]. split; [|split; [reflexivity|exact Hmin]].
       destruct Hc as [x [r [-> _]]]. cbn in *. now subst.
     + destruct Hin.
   - inversion H; subst. exfalso. rewrite <- E in Hin.
@@ -469,6 +485,16 @@ Proof.
   intros P H Hin. apply run_inv in H. destruct H as [ds2 [H ->]].
   apply in_app_or in Hin. destruct Hin as [Hin|Hin]; [exfalso; eapply pre_not_cycle; eauto|].
   destruct (cycle_sound _ _ _ _ _ P H Hin) as [H1 [H2 _]]. auto.
+Qed.
+
+(* the printed cycle starts at the job with the smallest position among its jobs *)
+Theorem cycle_start_min_jobs jobs ord ds p c :
+  Permutation ord (keys (table jobs)) -> run jobs ord = Done ds -> In (DCycle p c) ds ->
+  forall y, In y c -> is_before (pos_of (table jobs) y) p = false.
+Proof.
+  intros P H Hin. apply run_inv in H. destruct H as [ds2 [H ->]].
+  apply in_app_or in Hin. destruct Hin as [Hin|Hin]; [exfalso; eapply pre_not_cycle; eauto|].
+  destruct (cycle_sound _ _ _ _ _ P H Hin) as [_ [_ [_ H3]]]. exact H3.
 Qed.
 
 Theorem cycle_complete_jobs jobs ord ds :
